@@ -62,6 +62,13 @@ func main() {
 		for _, f := range st.Found {
 			fmt.Printf("FOUND [%s] %s x%d: %s\n   %s\n", f.Prop, f.Sig, f.Count, f.Msg, strings.Join(wx.PathStrings(sc, f.Path), "\n   "))
 		}
+	case "c13child":
+		fs := flag.NewFlagSet("c13child", flag.ExitOnError)
+		name := fs.String("s", "", "scenario id")
+		depth := fs.Int("depth", 4, "depth")
+		dump := fs.Int("dump", 0, "dump level")
+		_ = fs.Parse(os.Args[2:])
+		os.Exit(props.C13Child(*name, *depth, *dump))
 	case "replay":
 		if len(os.Args) < 3 {
 			usage()
